@@ -197,6 +197,11 @@ class Check:
             except Exception as e:
                 status, backend, secs, model, detail = "error", "", time.time() - t0, None, \
                     f"{type(e).__name__}: {e}\n{traceback.format_exc(limit=6)}"
+            if status == "refuted" and o.kind in ("post", "frame") and getattr(o.thunk, "goal_is_false", False):
+                # the contract wrote ``False`` because it could not read the result in the shape it expects (a value
+                # built another way after a refactor): that is a misfit of the contract, not a counterexample
+                status, detail = "unknown", "postcondition could not be stated for this result shape (goal is literally " \
+                                            "false: contract misfit) :: " + (detail or "")
             o.status = {"proved": "discharged", "refuted": "failed", "unknown": "undecided"}.get(status, status)
             o.backend, o.seconds, o.model, o.detail = backend, secs, model, detail or ""
             return o
@@ -585,6 +590,10 @@ def smt_thunk(pc, goal, timeout=30, logic="auto", defs=(), strings=False, instan
             raw = raw + " || finite instantiation: " + raw2
         verdict = {"unsat": "proved", "sat": "refuted"}.get(status, "unknown")
         return verdict, backend, secs, model, raw
+    try:
+        thunk.goal_is_false = bool(z3.is_false(z3.simplify(goal)))
+    except Exception:
+        thunk.goal_is_false = False
     return thunk
 
 
